@@ -289,7 +289,7 @@ def plan(ctx):
       sc.append({'N': n, 'B': b, 'epochs': ep, 'steps': st, 'drop': drop, 'skip': False, 'max_refills': 1, 'chain': False})
   for n, b, ep, st, drop in configs(range(1, 9), range(1, 11), epochs, steps):
     sc.append({'N': n, 'B': b, 'epochs': ep, 'steps': st, 'drop': drop, 'skip': True})
-  ctx.pmap('scripted', sc, chunk=64) if th else ctx.run('scripted', sc)
+  ctx.pmap('scripted', sc, chunk=64)
   seeds = list(range(32)) if th else list(range(5))
   se = []
   for n, b, ep, st, drop in configs(range(1, 13) if th else range(1, 9), range(1, 14) if th else range(1, 11),
@@ -297,6 +297,6 @@ def plan(ctx):
     for skip in (False, True):
       se.append({'N': n, 'B': b, 'epochs': ep, 'steps': st, 'drop': drop, 'skip': skip, 'seeds': seeds,
                  'chain': n % 2 == 1})
-  ctx.pmap('seeded', se, chunk=64) if th else ctx.run('seeded', se)
+  ctx.pmap('seeded', se, chunk=64)
   ctx.extra['bounds'] = {'scripted_N': [1, 4], 'seeded_N': [1, 12 if th else 8], 'seeds': len(seeds),
                          'epochs': [str(e) for e in epochs], 'steps': [str(s) for s in steps]}
